@@ -1,6 +1,7 @@
 package chain
 
 import (
+	"bytes"
 	"context"
 	"crypto/sha512"
 	"fmt"
@@ -299,6 +300,11 @@ func (w *World) BuildTx(op TxOp, v TxView, seq int) (*BuiltTx, error) {
 		bt.Authentic = false
 		var chk transaction.SignedTransaction
 		bt.Decodable = cbor.Unmarshal(bt.Raw, &chk) == nil
+		if bt.Decodable && bytes.Equal(chk.Blob, st.Blob) && chk.Signature.PublicKey.Equal(st.Signature.PublicKey) && chk.Signature.Signature == st.Signature.Signature {
+			// An encoding-equivalent envelope: the decoded (blob, key, signature) triple is the
+			// original's, so it is expected to behave like the original.
+			bt.Authentic = true
+		}
 	case "trunc":
 		bt.Raw = bt.Raw[:op.MutA%len(bt.Raw)]
 		bt.Authentic, bt.Decodable = false, false
